@@ -167,8 +167,8 @@ class C01(Prop):
 
     def plan(self, tier):
         if tier == "quick":
-            return {"units": 2400, "budget_s": 75, "block": 25}
-        return {"units": 90000, "budget_s": 1500, "block": 50}
+            return {"units": 10000, "budget_s": 90, "block": 25}
+        return {"units": 300000, "budget_s": 1500, "block": 50}
 
     STACKS = ("client", "pooled", "hash")
 
